@@ -444,6 +444,72 @@ PROBE_DOCS = [
 PROBE_ALL = "\n".join(PROBE_DOCS[i] for i in (1, 0, 3, 5, 4, 2, 6, 7, 8))
 
 
+# a second all-features document with the same constructs but different particulars (fence
+# characters and info strings, labels, markers, alignments, tag names): two threads formatting
+# PROBE_ALL and PROBE_ALL_B concurrently differ at every construct
+PROBE_ALL_B = """\
+| Left | Right | Mid |
+|:-----|------:|:---:|
+| x | "y" | `z|w` |
+
+Text after the second table... with dots.
+
+---
+
+{% callout type="warn" %}
+Body of the callout.
+{% /callout %}
+
+<!-- other -->
+After another comment.
+
+* star one
+* star two
+
+    + plus nested
+
+3) paren three
+4) paren four
+
+Setext Top
+==========
+
+### **Bold** third level
+
+> [!WARNING]
+> Careful here.
+
+> - quoted item
+>   continued
+
+Other claim[^b] and [^a]. See [site][s2] or [s2].
+
+[^a]: Alpha note.
+[^b]: Beta note that is also long enough to need wrapping at narrow widths, I'd say.
+
+[s2]: <https://example.org/s2> 'Other'
+
+'Tis "nice"... isn't it? `don't "touch"` this.
+
+~~~~sh extra words
+echo "hi"   # it's...
+~~~
+~~~~
+
+1. item
+
+   ~~~
+   inner
+   ~~~
+
+<details>
+<summary>sum</summary>
+</details>
+
+No. Yes. A long sentence comes second here and it must be wrapped at most of the widths that are in use. Fine.
+"""
+
+
 def plain_sentence(rng: random.Random) -> str:
     ws = [_word(rng) for _ in range(rng.randint(4, 14))]
     ws[0] = ws[0].capitalize()
